@@ -208,6 +208,27 @@ def handle (op : String) (args : List String) (impl : Impl) : Option Ans :=
       | _ => (c != -1, decide (va ≥ vb))
     pure { model := "ok " ++ bool01 m, spec := judgeInt impl (if want then 1 else 0),
            branch := op ++ ":" ++ (if va == vb then "same" else if a.c == b.c then "same_c" else "diff_c") }
+  | "cmp_via", [how, _, _] => do
+    -- C03 on the RESULT of an arithmetic entry point, in whatever form that entry point left it (raw parts as printed):
+    -- against the freshly constructed duration of the same parts and its neighbours, order and equality follow the
+    -- signed counts (spec only; the value of the result itself is C01's subject)
+    let grp (x : Dur) (z c rc e re : String) : Option (List (String × Bool)) := do
+      let z ← parseDur? z
+      let vx := sval x; let vz := sval z
+      let w : Int := if vx < vz then -1 else if vx > vz then 1 else 0
+      let negation := decide (vx ≠ vz ∧ vx = -vz ∧ -NPCs < vx ∧ vx < NPCs)
+      pure [("cmp_by_count", c == toString w), ("reverse_cmp_by_count", rc == toString (-w)),
+            ("eq_by_count", negation || e == bool01 (w == 0)), ("reverse_eq_by_count", negation || re == bool01 (w == 0))]
+    let sp := match impl with
+      | .ok [x, z1, c1, r1, e1, q1, z2, c2, r2, e2, q2, z3, c3, r3, e3, q3] =>
+        (match parseDur? x with
+         | some x => (match grp x z1 c1 r1 e1 q1, grp x z2 c2 r2 e2 q2, grp x z3 c3 r3 e3 q3 with
+            | some a, some b, some c => verdict (a ++ b ++ c)
+            | _, _, _ => "FAIL:decode")
+         | none => "FAIL:decode")
+      | .other w => "FAIL:" ++ w
+      | _ => "FAIL:decode"
+    pure { model := "-", spec := sp, branch := "cmp_via:" ++ how }
   | "cmp", [a, b] => do
     let a ← parseDur? a; let b ← parseDur? b
     let va := sval a; let vb := sval b
